@@ -335,6 +335,13 @@ pub fn split(c: &mut Choices, prog: &Program, nfiles: usize) -> Split
 			.filter(|(a, _)| *a == f)
 			.map(|(_, b)| format!("m{}.pn", b))
 			.collect();
+		// importing a file twice is the same as importing it once
+		if !p.imports.is_empty() && c.chance(1, 6)
+		{
+			let k = c.draw(p.imports.len());
+			let again = p.imports[k].clone();
+			p.imports.push(again);
+		}
 		// an import may stand anywhere among the declarations of a file
 		if !p.imports.is_empty() && c.chance(1, 3)
 		{
